@@ -79,6 +79,8 @@ type Packet struct {
 	// in more bytes than the algorithm of section 2.2.3 produces.  Such packets
 	// parse, but no conformant sender emits them, so WellFormed says no.
 	NonMinimalLength bool
+	// PadLength (Encode only): extra bytes in the remaining-length field
+	PadLength int
 }
 
 func (p *Packet) String() string {
@@ -212,7 +214,14 @@ func (p *Packet) Body() []byte {
 func Encode(p *Packet) []byte {
 	body := p.Body()
 	out := []byte{p.Type<<4 | p.FixedFlags()}
-	out = append(out, VarLen(len(body))...)
+	vl := VarLen(len(body))
+	// PadLength: the remaining length written in more bytes than necessary (no
+	// conformant sender does that, the library's decoders accept it)
+	for i := 0; i < p.PadLength && len(vl) < 4; i++ {
+		vl[len(vl)-1] |= 0x80
+		vl = append(vl, 0)
+	}
+	out = append(out, vl...)
 	return append(out, body...)
 }
 
